@@ -44,7 +44,7 @@ def run(chk: Check) -> int:
     # --- exhaustive small scope: every schedule (every ordered sub-list of the futures in flight
     #     at every wait, cancellation at every wait and -- BlockingRunner -- inside every executor.submit
     #     call, first and mid-batch ones included, every futures-were-already-running choice)
-    exh, truncated = {}, 0
+    exh, truncated, nslow = {}, 0, 0
     if chk.quick:
         plans = [(kind, nt, T, T - 1, "all", True) for kind in I.KINDS for nt in (2, 3) for T in (2, 4)]
         plans += [(kind, 3, 5, 5, "all", False) for kind in I.KINDS]
@@ -58,6 +58,10 @@ def run(chk: Check) -> int:
                         plans.append((kind, nt, T, T - 1, "all", True))     # early goal + cancellation at every wait
     for kind, nt, T, goal, orders, cancel in plans:
         spec = base_spec(kind, nt, T, goal, cancel)
+        if kind == "async_coro":
+            # coroutine function with asynchronous clean-up on cancellation: every other configuration
+            nslow += 1
+            spec["slow_cancel"] = nslow % 2 == 1
         cnt = 0
         if col.enough():
             break
@@ -80,7 +84,8 @@ def run(chk: Check) -> int:
         rule="real BlockingRunner/AsyncRunner(coroutine and run_in_executor) driven by a controlled scheduler: random specs "
              "(mock/Learner1D/SequenceLearner/AverageLearner, ntasks 1..13 or ncores, goals, fault plans, cancellation) with random "
              "schedules, plus exhaustive enumeration of all schedules for small task counts; cancellation is injected inside a wait "
-             "and (BlockingRunner) inside the k-th executor.submit call, for every k; non-trivial = at least one multi- or "
+             "and (BlockingRunner) inside the k-th executor.submit call, for every k; coroutine functions with and without asynchronous "
+             "clean-up on cancellation; non-trivial = at least one multi- or "
              "out-of-order completion and (stop with futures outstanding, cancellation, or a result arriving at shutdown); "
              "distinct by (spec, schedule)",
         assumptions=["hand-written model Model/Runner.v tied to adaptive/runner.py by the sampled + small-scope-exhaustive correspondence",
